@@ -54,6 +54,7 @@ Definition H_PROXYC : bytes := Eval vm_compute in B "proxy-connection".
 Definition H_TE : bytes := Eval vm_compute in B "te".
 Definition H_AR : bytes := Eval vm_compute in B "accept-ranges".
 Definition H_CR : bytes := Eval vm_compute in B "content-range".
+Definition H_VARY : bytes := Eval vm_compute in B "vary".
 Definition V_KEEP_ALIVE : bytes := Eval vm_compute in B "keep-alive".
 Definition V_CLOSE : bytes := Eval vm_compute in B "close".
 Definition V_TRAILERS : bytes := Eval vm_compute in B "trailers".
@@ -69,6 +70,9 @@ Record resp := mkResp { rs_version : N; rs_status : N; rs_headers : headers; rs_
 (** what the client of one exchange receives *)
 Inductive wreply :=
 | WResp (r : resp)
+| WClosed (r : resp)  (** HTTP/1 only (repair 7334433): the response [r] whose server CLOSED THE CONNECTION after it — the body of a
+                          streamed response of unknown length is everything up to that end; nothing more is answered on
+                          this connection *)
 | WRefused      (** h2: [send_response] = Err(UserError::MalformedHeaders) -> ClientRefusedResponse; no head is sent *)
 | WBroken.      (** what follows the head is not the body the head announces: HTTP/1 — fewer or more bytes than
                     [content-length] says (or no [content-length] at all on a connection that stays open), or any byte
@@ -78,10 +82,28 @@ Inductive wreply :=
 (** ---------------------------------------------------------------------------------------------
     [send]: everything between [handle_cache]'s return value and the bytes on the connection
     --------------------------------------------------------------------------------------------- *)
+(** [StatusCode::is_informational() || == NO_CONTENT || == NOT_MODIFIED]: responses that end with their head *)
+Definition ends_with_head (st : N) : bool := ((100 <=? st) && (st <? 200)) || (st =? 204) || (st =? 304).
+(** [SendKind::send], first statement (repair 89e2956): the body an extension left on such a response is dropped *)
+Definition head_only (r : resp) : resp :=
+  if ends_with_head (rs_status r) then mkResp (rs_version r) (rs_status r) (rs_headers r) [] else r.
+
+(** [vary::apply_header_from_settings(response, rules)] = [vary::apply_header(response, names, false)] (repair 21f0154: the
+    416 page that replaces a response keeps the page's [vary]): for a body that is not empty, [vary] is INSERTED with
+    [get_header(names, false)] = "accept-encoding, range" followed by ", name" for every rule of the request's path *)
+Definition vary_value (names : list bytes) : bytes :=
+  B "accept-encoding, range" ++ concat (map (fun n => B ", " ++ n) names).
+Definition vary_from_settings (names : list bytes) (r : resp) : resp :=
+  if N.of_nat (length (rs_body r)) =? 0 then r
+  else mkResp (rs_version r) (rs_status r) (hm_insert H_VARY (vary_value names) (rs_headers r)) (rs_body r).
+
 Section Send.
   Variable checked : bool.                    (** overflow checks of this build (Model/Range.v) *)
   (** [default_error(status, Some(host), ..)]: the host's error page — external (error extensions, files) *)
   Variable error_page : N -> resp.
+  (** [host.vary.rules_from_request(request)]: the names of the vary rules the host holds for the path of the request
+      (as [SendKind::send] sees it: after the Prime extensions), in rule order — external (the host's configuration) *)
+  Variable vnames : list bytes.
   (** the Package chain ([Extensions::resolve_package]: every extension, in list order) as one function of
       the response head it is handed: version (already fixed up), headers (already with [content-length]) *)
   Variable pkg : N -> headers -> headers.
@@ -95,7 +117,8 @@ Section Send.
     end.
 
   (** [if let (Ok(data), false) = (&data, not_modified) { data.apply_to_response(..) }]: a 304 is sent as it is
-      (C09's repair); 416 replaces the WHOLE response (also the [alt-svc] header appended just before). *)
+      (C09's repair); 416 replaces the WHOLE response (also the [alt-svc] header appended just before) by the host's
+      416 page with the [vary] header of the request's rules (repair 21f0154). *)
   Definition apply_sd (sd : outcome (option (N * N))) (r : resp) : outcome resp :=
     match sd with
     | Ok range =>
@@ -105,18 +128,19 @@ Section Send.
             let h1 := if r_accept_ranges g then hm_insert H_AR V_BYTES (rs_headers r) else rs_headers r in
             let h2 := match r_content_range g with Some v => hm_insert H_CR v h1 | None => h1 end in
             Ok (mkResp (rs_version r) (r_status g) h2 (r_body g))
-        | Err _ => Ok (error_page 416)
+        | Err _ => Ok (vary_from_settings vnames (error_page 416))
         | Panic => Panic
         end
     | Err _ => Ok r
     | Panic => Panic
     end.
 
-  (** [ResponsePipe::ensure_length]: HTTP/1 always states the length; HTTP/2 frames the body itself and
+  (** [ResponsePipe::ensure_length]: HTTP/1 always states the length — and then drops a [transfer-encoding] an
+      extension left (repair 3c296af: the two must not go together); HTTP/2 frames the body itself and
       only corrects a [content-length] a handler left (repaired: before, that header went out unchanged). *)
   Definition ensure_length (p : proto) (len : N) (h : headers) : headers :=
     match p with
-    | H1 => hm_insert H_CL (dec len) h
+    | H1 => hm_remove H_TENC (hm_insert H_CL (dec len) h)
     | H2 => if hm_has H_CL h then hm_insert H_CL (dec len) h else h
     end.
 
@@ -127,8 +151,13 @@ Section Send.
     | H2 => V2
     end.
 
-  (** [ResponsePipe::send_response], HTTP/1 arm: [connection] absent, not text, or "close" -> "keep-alive" *)
-  Definition h1_connection (h : headers) : headers :=
+  (** [ResponsePipe::send_response], HTTP/1 arm.  [close_delimited] (repair 7334433): nothing in the head says where the
+      body ends — no [content-length], no [transfer-encoding], not a status that ends with the head — so the end of the
+      connection has to: [connection: close].  Else: [connection] absent, not text, or "close" -> "keep-alive" *)
+  Definition h1_close_delimited (st : N) (h : headers) : bool :=
+    negb (hm_has H_CL h || hm_has H_TENC h || ends_with_head st).
+  Definition h1_connection (st : N) (h : headers) : headers :=
+    if h1_close_delimited st h then hm_insert H_CONN V_CLOSE h else
     match assoc H_CONN h with
     | Some v => if to_str_ok v && negb (beq v V_CLOSE) then h else hm_insert H_CONN V_KEEP_ALIVE h
     | None => hm_insert H_CONN V_KEEP_ALIVE h
@@ -159,14 +188,14 @@ Section Send.
       unsafe path is [Err 400]), [r] = [CacheReply::response] (no streaming future). *)
   Definition send (p : proto) (secure : bool) (alt : option bytes) (m : N)
       (sd : outcome (option (N * N))) (r : resp) : outcome wreply :=
-    obind (apply_sd sd (add_alt_svc secure alt r)) (fun r1 =>
+    obind (apply_sd sd (head_only (add_alt_svc secure alt r))) (fun r1 =>
     let len := N.of_nat (length (rs_body r1)) in
     let h1 := ensure_length p len (rs_headers r1) in
     let v := ensure_version p (rs_version r1) in
     let h2 := pkg v h1 in
     let body := if sends_body m (rs_body r1) then rs_body r1 else [] in
     match p with
-    | H1 => Ok (WResp (mkResp v (rs_status r1) (h1_connection h2) body))
+    | H1 => Ok (WResp (mkResp v (rs_status r1) (h1_connection (rs_status r1) h2) body))
     | H2 =>
         let h3 := h2_strip h2 in
         if h2_refuses h3 then Ok WRefused else Ok (WResp (mkResp v (rs_status r1) h3 body))
@@ -185,7 +214,7 @@ Section Send.
       [end_of_stream]; the HTTP/2 arm hands it to h2 (END_STREAM on the HEADERS frame). *)
   Definition pipe_head (p : proto) (v st : N) (h : headers) (eos : bool) : option arrived :=
     match p with
-    | H1 => Some (mkArr (Some (v, st, h1_connection h)) [] false)
+    | H1 => Some (mkArr (Some (v, st, h1_connection st h)) [] false)
     | H2 => let h' := h2_strip h in
             if h2_refuses h' then None else Some (mkArr (Some (v, st, h')) [] eos)
     end.
@@ -221,37 +250,53 @@ Section Send.
         end
     end.
 
-  (** what the client makes of it (request method [m]).  HTTP/1: the connection stays open, so the body is exactly
+  (** what the client makes of it (request method [m]).  HTTP/1: while the connection stays open the body is exactly
       the [content-length] bytes after the head (none for HEAD); anything else leaves the connection out of step.
+      [closes] (repair 7334433): the server ends the connection after this response ([handle_connection]'s
+      [close_delimited]) — then a body without [content-length] is everything up to that end, and the client knows the
+      connection is gone ([WClosed]).  Without [content-length] on a connection that stays open the client waits.
       HTTP/2: the DATA frames up to END_STREAM; h2's client resets the stream when they contradict a [content-length]
-      in the head or follow the head of a HEAD answer. *)
-  Definition receive (p : proto) (m : N) (a : arrived) : wreply :=
+      in the head or follow the head of a HEAD answer ([closes] concerns HTTP/1 only: an HTTP/2 request is its own task). *)
+  Definition receive (p : proto) (m : N) (closes : bool) (a : arrived) : wreply :=
     match a_head a with
     | None => WRefused
     | Some (v, st, h) =>
         let n := N.of_nat (length (a_bytes a)) in
         let whole := WResp (mkResp v st h (a_bytes a)) in
-        if m =? M_HEAD then (if n =? 0 then (match p with H1 => whole | H2 => if a_ended a then whole else WBroken end) else WBroken)
-        else match p with
-             | H1 => match assoc H_CL h with
-                     | Some c => if beq c (dec n) then whole else WBroken
-                     | None => WBroken
-                     end
-             | H2 => if negb (a_ended a) then WBroken else
-                     match assoc H_CL h with
-                     | Some c => if beq c (dec n) then whole else WBroken
-                     | None => whole
-                     end
-             end
+        match p with
+        | H1 =>
+            let framed := if m =? M_HEAD then n =? 0 else
+                          match assoc H_CL h with Some c => beq c (dec n) | None => closes end in
+            if framed then (if closes then WClosed (mkResp v st h (a_bytes a)) else whole) else WBroken
+        | H2 =>
+            if m =? M_HEAD then (if n =? 0 then (if a_ended a then whole else WBroken) else WBroken)
+            else if negb (a_ended a) then WBroken else
+                 match assoc H_CL h with
+                 | Some c => if beq c (dec n) then whole else WBroken
+                 | None => whole
+                 end
+        end
+    end.
+
+  (** [handle_connection]'s [close_delimited] (repair 7334433), computed on [handle_cache]'s reply after the [alt-svc]
+      append: a future whose length kvarn is not told ([with_future]) on a response without [transfer-encoding] and
+      without a [content-length] of its own — on HTTP/1 the connection is not reused after the response *)
+  Definition close_delimited (r : resp) (f : option (list bytes * option N)) : bool :=
+    match f with
+    | Some (_, None) => negb (hm_has H_TENC (rs_headers r)) && negb (hm_has H_CL (rs_headers r))
+    | _ => false
     end.
 
   (** [SendKind::send] with an optional streaming future [f] = (the chunks it writes, the overridden length of
       [with_future_and_len]).  With a future [apply_to_response] does nothing ([is_stream]) and the length stated is
-      the overridden one — none at all for [with_future].  [head_future] = the code before the repair d63bba7, which
-      ran the future also for HEAD. *)
+      the overridden one — none at all for [with_future].  The future is not run for HEAD (repair d63bba7; exception: a
+      101 head, whose future carries out the protocol switch and is no body); [head_future] = the code before that
+      repair, which ran the future also for HEAD. *)
   Definition send_pipe (head_future : bool) (p : proto) (secure : bool) (alt : option bytes) (m : N)
       (sd : outcome (option (N * N))) (r : resp) (f : option (list bytes * option N)) : outcome wreply :=
-    let r0 := add_alt_svc secure alt r in
+    let ra := add_alt_svc secure alt r in
+    let closes := close_delimited ra f in
+    let r0 := head_only ra in
     obind (match f with None => apply_sd sd r0 | Some _ => Ok r0 end) (fun r1 =>
     let olen := match f with Some (_, ol) => ol | None => Some (N.of_nat (length (rs_body r1))) end in
     let h1 := match olen with Some n => ensure_length p n (rs_headers r1) | None => rs_headers r1 end in
@@ -259,18 +304,24 @@ Section Send.
     let h2 := pkg v h1 in
     let body := if sends_body m (rs_body r1) then Some (rs_body r1) else None in
     let chunks := match f with
-                  | Some (cs, _) => if head_future || negb (m =? M_HEAD) then cs else []
+                  | Some (cs, _) => if head_future || negb (m =? M_HEAD) || (rs_status r1 =? 101) then cs else []
                   | None => []
                   end in
-    Ok (receive p m (pipe_send p false v (rs_status r1) h2 body chunks))).
+    Ok (receive p m closes (pipe_send p false v (rs_status r1) h2 body chunks))).
 
   (** the future's bytes are framed: the length the handler overrides (or, with [with_future], the [content-length]
-      it states itself) is the number of bytes body and future write *)
+      it states itself) is the number of bytes body and future write — or ([with_future], no [content-length], no
+      [transfer-encoding]) the length is not stated at all: HTTP/1 then ends the body with the connection.  [r] is the
+      response as [SendKind::send] sends it ([head_only]). *)
   Definition fut_framed (r : resp) (f : option (list bytes * option N)) : Prop :=
     match f with
     | None => True
     | Some (cs, Some n) => n = N.of_nat (length (rs_body r ++ concat cs))
-    | Some (cs, None) => assoc H_CL (rs_headers r) = Some (dec (N.of_nat (length (rs_body r ++ concat cs))))
+    | Some (cs, None) =>
+        match assoc H_CL (rs_headers r) with
+        | Some c => c = dec (N.of_nat (length (rs_body r ++ concat cs)))
+        | None => assoc H_TENC (rs_headers r) = None
+        end
     end.
 
   (** [handle_connection]'s own answers — 429 of the host's request limiter ([limiting::get_too_many_requests]), 409 when no
@@ -280,7 +331,7 @@ Section Send.
     let h1 := ensure_length p (N.of_nat (length (rs_body r))) (rs_headers r) in
     let v := ensure_version p (rs_version r) in
     let body := if m =? M_HEAD then [] else rs_body r in
-    Ok (receive p m (match pipe_head p v (rs_status r) h1 false with
+    Ok (receive p m false (match pipe_head p v (rs_status r) h1 false with
                      | None => arr0
                      | Some a1 => match pipe_data p a1 body true with Some a2 => a2 | None => a1 end
                      end)).
@@ -293,6 +344,8 @@ Section Send.
   Definition normalise (w : wreply) : wreply :=
     match w with
     | WResp r => WResp (mkResp 0 (rs_status r) (strip (rs_headers r)) (rs_body r))
+    (* how the HTTP/1 body was delimited, and that the connection ended with it, is connection-level *)
+    | WClosed r => WResp (mkResp 0 (rs_status r) (strip (rs_headers r)) (rs_body r))
     | WRefused => WRefused
     | WBroken => WBroken
     end.
@@ -303,6 +356,7 @@ Section Send.
   Definition drop_body (w : wreply) : wreply :=
     match w with
     | WResp r => WResp (mkResp (rs_version r) (rs_status r) (rs_headers r) [])
+    | WClosed r => WClosed (mkResp (rs_version r) (rs_status r) (rs_headers r) [])
     | WRefused => WRefused
     | WBroken => WBroken
     end.
@@ -360,6 +414,7 @@ Section ConnLoop.
                        | H2 => COpen                              (* own stream, own task: a panic resets that stream only *)
                        | H1 => match w with
                                | Ok WBroken => CClosed            (* client and server are out of step from here on *)
+                               | Ok (WClosed _) => CClosed        (* [handle_connection]: [reusable = false] -> [break] *)
                                | Ok _ => h1_after drain s q
                                | _ => CClosed                     (* the connection's task panicked *)
                                end
@@ -392,16 +447,21 @@ Definition pkg_keeps_length (pkg : N -> headers -> headers) : Prop :=
 (** ---------------------------------------------------------------------------------------------
     which BYTES a handler gets from [Body::read_to_bytes(max_len)] (src/application.rs)
     --------------------------------------------------------------------------------------------- *)
-(** [Http1Body]: the bytes that arrived with the head, what the client still sends on the connection, [content_length] *)
-Record h1body := mkH1B { hb_early : bytes; hb_conn : bytes; hb_cl : N }.
-(** [len = min(content_length, max_len)]; nothing for [len = 0] (and [content_length] stays); else the early bytes first,
-    the rest through [take(len - buffer.len())] from the connection; [content_length = 0]: nothing the next time *)
+(** [Http1Body]: the bytes that arrived with the head ([bytes]), what the client still sends on the connection,
+    [content_length], and [offset] — how much of the body has been handed out (repairs 9c56fae / 2820a60 of C07: a reader
+    that took part of the body through [AsyncRead] is continued, not started over; [Http1Body::new] starts at 0) *)
+Record h1body := mkH1B { hb_early : bytes; hb_conn : bytes; hb_cl : N; hb_off : N }.
+(** [len = min(content_length.saturating_sub(offset), max_len)]; nothing for [len = 0] (and [content_length] stays);
+    else what is left of the early bytes first ([bytes.get(offset..)], at most [len]), the rest through
+    [take(len - buffer.len())] from the connection ([poll_read] hands out at most [content_length - offset], which is
+    no less); [content_length = 0]: nothing the next time *)
 Definition h1_read_to_bytes (b : h1body) (max_len : N) : bytes * h1body :=
-  let len := N.min (hb_cl b) max_len in
+  let len := N.min (hb_cl b - hb_off b) max_len in
   if len =? 0 then ([], b) else
-  let e := firstn (N.to_nat len) (hb_early b) in
+  let e := firstn (N.to_nat len) (skipn (N.to_nat (hb_off b)) (hb_early b)) in
   let need := (N.to_nat len - length e)%nat in
-  (e ++ firstn need (hb_conn b), mkH1B (hb_early b) (skipn need (hb_conn b)) 0).
+  let got := firstn need (hb_conn b) in
+  (e ++ got, mkH1B (hb_early b) (skipn need (hb_conn b)) 0 (hb_off b + N.of_nat (length e) + N.of_nat (length got))).
 (** the HTTP/2 arm: DATA frames are taken one by one ([h2.data().await], capacity released) and appended up to
     [left = max_len.saturating_sub(bytes.len())]; the loop ends when a frame is taken while [left = 0] (that frame is
     dropped), when [left] reaches 0 after a frame (the rest of that frame is dropped), or with the stream.
@@ -430,7 +490,8 @@ Fixpoint h2_reads (frames : list bytes) (limits : list N) : list bytes :=
 
 (** [extensions::stream_body] (the in-tree producer of streamed responses): which bytes of the file its future writes and
     the length it announces with [with_future_and_len]; [None] = it answers 416.  [range] = [sanitize_request]'s
-    (start, end) with start < end, end exclusive.  [clamp = false] is the code before the repair d675f8a. *)
+    (start, end) with start < end, end exclusive.  [clamp = false] is the code before the repair d675f8a (no clamp, no
+    416, and — [stream_head] — 200 without [content-range]). *)
 Definition stream_plan (clamp : bool) (file : bytes) (range : option (N * N)) : option (bytes * N) :=
   let flen := N.of_nat (length file) in
   let start := match range with Some (a, _) => a | None => 0 end in
@@ -439,6 +500,20 @@ Definition stream_plan (clamp : bool) (file : bytes) (range : option (N * N)) : 
   if clamp && match range with Some _ => flen <=? start | None => false end then None else
   (* the future seeks to [start] and writes until [pos >= end] or the end of the file *)
   Some (firstn (N.to_nat (e - start)) (skipn (N.to_nat start) file), e - start).
+
+(** the head of that answer: status and [content-range].  Repaired (d675f8a): a Range is answered 206 with
+    [content-range: bytes start-(end-1)/file_len], [end] clamped — the rules of [apply_to_response] (Model/Range.v
+    [apply_range]), which [SendKind::send] skips for streams *)
+Definition stream_head (clamp : bool) (file : bytes) (range : option (N * N)) : option (N * option bytes) :=
+  let flen := N.of_nat (length file) in
+  match range with
+  | None => Some (200, None)
+  | Some (start, e0) =>
+      if clamp then
+        if flen <=? start then None
+        else Some (206, Some (B "bytes " ++ dec start ++ B "-" ++ dec (N.min e0 flen - 1) ++ B "/" ++ dec flen))
+      else Some (200, None)
+  end.
 
 (** ---- a menu of Package extensions (the harness registers the same ones on the real host) ---- *)
 Inductive pkg_op :=
@@ -478,6 +553,8 @@ Section Answer.
   Variable vary_header : request -> fat -> list (bytes * bytes).
   Variable checked : bool.
   Variable error_page : N -> resp.
+  (** [host.vary.rules_from_request]: the names of the vary rules of the request's path (the host's configuration) *)
+  Variable vary_rules : request -> list bytes.
   Variable pkg : N -> headers -> headers.
   Variable alt : option bytes.
   (** [sanitize_request]'s value for a request (the range part is Model/Range.v, the path part Model/PathSan.v) *)
@@ -500,7 +577,7 @@ Section Answer.
   (** the answer a client of protocol [p] receives for [r0], the host being in state [st] *)
   Definition answer (p : proto) (secure : bool) (st : state hstate) (now : N) (r0 : request) : outcome wreply :=
     let '(_, rp, _) := serveX st now r0 in
-    send checked error_page pkg p secure alt (rq_method r0) (sanitize r0) (l4_resp r0 rp).
+    send checked error_page (vary_rules r0) pkg p secure alt (rq_method r0) (sanitize r0) (l4_resp r0 rp).
 
   (** ---- concurrent streams on one HTTP/2 connection ---- *)
   (** a task between its two blocks: waiting for the handler *)
@@ -633,14 +710,15 @@ Section Answer.
   (** what stream [sid] receives over HTTP/2 *)
   Definition stream_wire (o : N * request * reply) : N * outcome wreply :=
     let '(sid, r0, rp) := o in
-    (sid, send checked error_page pkg H2 true alt (rq_method r0) (sanitize r0) (l4_resp r0 rp)).
+    (sid, send checked error_page (vary_rules r0) pkg H2 true alt (rq_method r0) (sanitize r0) (l4_resp r0 rp)).
 
   (** ---- a history of requests with bodies on ONE connection of either protocol ---- *)
   (** which handler reads how much of a request body: external ([Some l] = [read_to_bytes(l)] is called) *)
   Variable wants : state hstate -> request -> option N.
   Definition ans_step (p : proto) (secure : bool) (st : state hstate) (now : N) (b : breq) : state hstate * outcome wreply :=
     let '(st', rp, _) := serveX st now (b_req b) in
-    (st', send checked error_page pkg p secure alt (rq_method (b_req b)) (sanitize (b_req b)) (l4_resp (b_req b) rp)).
+    (st', send checked error_page (vary_rules (b_req b)) pkg p secure alt (rq_method (b_req b)) (sanitize (b_req b))
+               (l4_resp (b_req b) rp)).
   Definition conn_hist (p : proto) (drain secure : bool) (st : state hstate) (now dt : N) (bs : list breq)
       : list (option (outcome wreply)) :=
     conn_loop (state hstate) breq ans_step (fun b => rq_method (b_req b)) b_len b_early (fun st b => wants st (b_req b))
@@ -655,7 +733,7 @@ End Answer.
 Definition x_headers (h : headers) : xval := XL (map (fun kv => XL [XB (fst kv); XB (snd kv)]) h).
 Definition x_resp (r : resp) : xval := XL [XN (rs_version r); XN (rs_status r); x_headers (rs_headers r); XB (rs_body r)].
 Definition x_wreply (w : wreply) : xval :=
-  match w with WResp r => XL [XN 0; x_resp r] | WRefused => XL [XN 3] | WBroken => XL [XN 4] end.
+  match w with WResp r => XL [XN 0; x_resp r] | WRefused => XL [XN 3] | WBroken => XL [XN 4] | WClosed r => XL [XN 5; x_resp r] end.
 
 Definition d_hpair (x : xval) : option (bytes * bytes) :=
   match x with XL [XB a; XB c] => Some (a, c) | _ => None end.
@@ -679,12 +757,13 @@ Definition sd_of (path_ok : bool) (range : option bytes) : outcome (option (N * 
   if path_ok then sanitize_range range else Err 400.
 
 (** one exchange: (L method (L [range]) path_ok l4), (L method (L [range]) path_ok l4 body_len (L [want])) or
-    (L method (L [range]) path_ok l4 body_len (L [want]) (L limited (L [(L stream_bytes (L [len]))])))
+    (L method (L [range]) path_ok l4 body_len (L [want]) (L limited (L [(L stream_bytes (L [len]))]) [(L vary_name ...)]))
     — [body_len] bytes of request body follow the head; [want] = [l]: the handler that answers reads [read_to_bytes(l)];
     [limited]: the host's request limiter answers (429; [l4] is then that page); the stream: what the response's
-    [ResponsePipeFuture] writes (observed in process) and the length the handler overrides *)
+    [ResponsePipeFuture] writes (observed in process) and the length the handler overrides; the names of the vary rules
+    the host's configuration holds for the request's path (none when the field is absent) *)
 Record exch := mkEx { ex_method : N; ex_range : option bytes; ex_path_ok : bool; ex_l4 : resp; ex_blen : N; ex_want : option N;
-                      ex_limited : bool; ex_fut : option (list bytes * option N) }.
+                      ex_limited : bool; ex_fut : option (list bytes * option N); ex_vary : list bytes }.
 Definition d_fut (x : xval) : option (list bytes * option N) :=
   match x with
   | XL [XB b; ol] => option_map (fun o => ([b], o)) (d_option d_N ol)
@@ -694,18 +773,24 @@ Definition d_exch (x : xval) : option exch :=
   match x with
   | XL [XB m; rg; po; l4] =>
       match d_option d_B rg, d_bool po, d_resp l4 with
-      | Some rg', Some po', Some r => Some (mkEx (method_of_bytes m) rg' po' r 0 None false None)
+      | Some rg', Some po', Some r => Some (mkEx (method_of_bytes m) rg' po' r 0 None false None [])
       | _, _, _ => None
       end
   | XL [XB m; rg; po; l4; XN bl; w] =>
       match d_option d_B rg, d_bool po, d_resp l4, d_option d_N w with
-      | Some rg', Some po', Some r, Some w' => Some (mkEx (method_of_bytes m) rg' po' r bl w' false None)
+      | Some rg', Some po', Some r, Some w' => Some (mkEx (method_of_bytes m) rg' po' r bl w' false None [])
       | _, _, _, _ => None
       end
   | XL [XB m; rg; po; l4; XN bl; w; XL [lim; fu]] =>
       match d_option d_B rg, d_bool po, d_resp l4, d_option d_N w, d_bool lim, d_option d_fut fu with
-      | Some rg', Some po', Some r, Some w', Some lim', Some fu' => Some (mkEx (method_of_bytes m) rg' po' r bl w' lim' fu')
+      | Some rg', Some po', Some r, Some w', Some lim', Some fu' => Some (mkEx (method_of_bytes m) rg' po' r bl w' lim' fu' [])
       | _, _, _, _, _, _ => None
+      end
+  | XL [XB m; rg; po; l4; XN bl; w; XL [lim; fu; vn]] =>
+      match d_option d_B rg, d_bool po, d_resp l4, d_option d_N w, d_bool lim, d_option d_fut fu, d_list d_B vn with
+      | Some rg', Some po', Some r, Some w', Some lim', Some fu', Some vn' =>
+          Some (mkEx (method_of_bytes m) rg' po' r bl w' lim' fu' vn')
+      | _, _, _, _, _, _, _ => None
       end
   | _ => None
   end.
@@ -724,8 +809,19 @@ Definition d_case (x : xval) : option (bool * list pkg_op * option bytes * resp 
 Definition send_ex (checked : bool) (ops : list pkg_op) (alt : option bytes) (e416 : resp)
     (p : proto) (secure : bool) (e : exch) : outcome wreply :=
   if ex_limited e then send_direct p (ex_method e) (ex_l4 e) else
-  send_pipe checked (fun _ => e416) (pkg_menu ops) false p secure alt (ex_method e)
+  send_pipe checked (fun _ => e416) (ex_vary e) (pkg_menu ops) false p secure alt (ex_method e)
             (sd_of (ex_path_ok e) (ex_range e)) (ex_l4 e) (ex_fut e).
+
+(** does the HTTP/1 connection end with the answer to this exchange ([handle_connection]'s [close_delimited]; the limiter's
+    answers never do) *)
+Definition ex_closes (e : exch) : bool := negb (ex_limited e) && close_delimited (ex_l4 e) (ex_fut e).
+(** the exchanges the history theorems speak about: a request body only where its length is honoured, a response body
+    below 2^64 bytes, a framed future (or one of unknown length), and — a future's bytes being the body — no HEAD
+    request answered 101 (the protocol switch of a WebSocket is outside) *)
+Definition ex_ok (e : exch) : Prop :=
+  (pr_no_request_body (ex_method e) = true -> ex_blen e = 0) /\ N.of_nat (length (rs_body (ex_l4 e))) <= u64_max /\
+  fut_framed (head_only (ex_l4 e)) (ex_fut e) /\
+  (ex_fut e <> None -> (ex_method e =? M_HEAD) && (rs_status (ex_l4 e) =? 101) = false).
 
 (** the history of a case on ONE connection of protocol [p]: the connection loop over the observed layer-4 responses
     (the application state is in the observations: [unit] here).  The harness's HTTP/1 client writes head and body in one
@@ -772,11 +868,13 @@ Definition run_pair : xval -> xval := run_pair_gen true.
     protocol arm — the range specification of C09 on the layer-4 response, the package menu on the
     end-to-end headers only, the body unless HEAD. *)
 Definition spec_ex (ops : list pkg_op) (e416 : resp) (e : exch) : wreply :=
-  let r := ex_l4 e in
   if ex_limited e then
     (* the limiter's page as it is: no range, no Package chain *)
+    let r := ex_l4 e in
     WResp (mkResp 0 (rs_status r) (strip (rs_headers r)) (if ex_method e =? M_HEAD then [] else rs_body r))
   else
+  (* a 1xx / 204 / 304 answer has no body, whatever layer 4 left on it *)
+  let r := head_only (ex_l4 e) in
   match ex_fut e with
   | Some (cs, _) =>
       (* a streamed response: no range is applied; the body is what body and future write, in that order *)
@@ -788,7 +886,7 @@ Definition spec_ex (ops : list pkg_op) (e416 : resp) (e : exch) : wreply :=
     | Ok range =>
         if rs_status r =? 304 then r else
         match range_spec (match ex_range e with Some v => parse_range v | None => None end) (rs_body r) with
-        | R416 => e416
+        | R416 => vary_from_settings (ex_vary e) e416      (* the host's 416 page, advertising what the page varies on *)
         | RResp g =>
             let h1 := if r_accept_ranges g then hm_insert H_AR V_BYTES (rs_headers r) else rs_headers r in
             let h2 := match r_content_range g with Some v => hm_insert H_CR v h1 | None => h1 end in
@@ -811,7 +909,7 @@ Definition run_pair_spec (x : xval) : xval :=
     connection?  (L h1 h2).  The specification is (yes, yes) for every history.  [run_answered_gen false] is the code
     before the repair dfe4d54 (an unread request body stays on the HTTP/1 connection): (no, yes) for the witness. *)
 Definition is_resp (o : option (outcome wreply)) : bool :=
-  match o with Some (Ok (WResp _)) => true | _ => false end.
+  match o with Some (Ok (WResp _)) | Some (Ok (WClosed _)) => true | _ => false end.
 Definition run_answered_gen (drain : bool) (x : xval) : xval :=
   match x, d_case x with
   | XL [_; _; _; _; _; _; s1], Some (checked, ops, alt, e416, exs) =>
@@ -881,7 +979,7 @@ Definition run_burst (p : proto) (x : xval) : xval :=
           let wires := map (fun '(sid, r0, rp) =>
                           (sid, match exof sid with
                                 | Some e => x_outcome x_wreply
-                                              (send_pipe checked (fun _ => e416) (pkg_menu ops) false p true alt (ex_method e)
+                                              (send_pipe checked (fun _ => e416) (ex_vary e) (pkg_menu ops) false p true alt (ex_method e)
                                                     (sd_of (ex_path_ok e) (ex_range e))
                                                     (mkResp (rs_version (ex_l4 e)) (rp_status rp) (rp_headers rp) (rp_body rp))
                                                     (ex_fut e))
@@ -921,7 +1019,7 @@ Definition run_body (x : xval) : xval :=
       match d_list d_N fl, d_list d_N ls with
       | Some lens, Some limits =>
           let e := N.to_nat (N.min early (N.of_nat (length body))) in
-          XL [XL (map XB (h1_reads (mkH1B (firstn e body) (skipn e body) (N.of_nat (length body))) limits));
+          XL [XL (map XB (h1_reads (mkH1B (firstn e body) (skipn e body) (N.of_nat (length body)) 0) limits));
               XL (map XB (h2_reads (split_frames lens body) limits))]
       | _, _ => bad_input
       end
@@ -940,14 +1038,15 @@ Definition run_body_spec (x : xval) : xval :=
   | _ => bad_input
   end.
 
-(** "proto.sbody": [extensions::stream_body] on a file: (L file (L [(L start end)])) -> (L) for 416, (L (L bytes len)) *)
+(** "proto.sbody": [extensions::stream_body] on a file: (L file (L [(L start end)])) -> (L) for 416,
+    (L (L bytes len status (L [content-range]))) *)
 Definition run_sbody (x : xval) : xval :=
   match x with
   | XL [XB file; rg] =>
       match d_option (fun y => match y with XL [XN a; XN c] => Some (a, c) | _ => None end) rg with
-      | Some range => match stream_plan true file range with
-                      | Some (b, n) => XL [XL [XB b; XN n]]
-                      | None => XL []
+      | Some range => match stream_plan true file range, stream_head true file range with
+                      | Some (b, n), Some (st, cr) => XL [XL [XB b; XN n; XN st; x_option XB cr]]
+                      | _, _ => XL []
                       end
       | None => bad_input
       end
